@@ -223,7 +223,7 @@ def eap_attrs(rng, valid=True):
 def generic_history(exe, rng, idx, emph, cfg=None):
     E = lambda k, d=0.0: emph.get(k, d)
     cfg = cfg or W.rand_cfg(rng, rewrites=E("rewrites", 0.6) > rng.random(), ttl=E("ttl", 0.5) > rng.random(),
-                            grow=E("grow", 0.2) > rng.random(), types=emph.get("types"))
+                            grow=E("grow", 0.2) > rng.random(), types=emph.get("types"), rwout_p=E("rwout_p", 0.3))
     h = Hist(exe, rng, cfg)
     if not h.alive:
         return h.finish(kind="cfg-crash")
